@@ -84,7 +84,8 @@ def _module_src(m):
         if u.get('only') is None:
             L.append('  use %s' % u['module'])
         else:
-            L.append('  use %s, only: %s' % (u['module'], ', '.join(u['only'])))
+            L.append('  use %s, only: %s' % (u['module'], ', '.join(('%s => %s' % (x[0], x[1])) if isinstance(x, list) else x
+                                                                 for x in u['only'])))
     L.append('  implicit none')
     for v in m.get('vars', []):
         L.append('  integer :: %s' % v)
@@ -198,6 +199,9 @@ def truth_atoms(proj):
             for tv in r.get('tvars', []):
                 if tv['module'] == host:
                     A.append(('item', '%s#%s' % (host, tv['type'])))
+                elif tv.get('hostimp'):
+                    # the type is made accessible by a module-level USE statement of the host module
+                    A.append(_import_atom(idx, tv['hostimp']))
         tvars = {tv['name']: tv for tv in r.get('tvars', [])}
         for c in r.get('calls', []):
             if c['k'] in ('sub', 'fun', 'intf'):
@@ -208,7 +212,7 @@ def truth_atoms(proj):
                 A.append(('missing', '#' + c['name']))
             elif c['k'] == 'tbp':
                 tv = tvars[c['var']]
-                A.append(('item', '%s#%s%%%s' % (tv['module'], tv['type'], c['binding'])))
+                A.append(('item', '%s#%s%%%s' % (tv['module'], tv.get('rtype', tv['type']), c['binding'])))
         return A
     for m in proj['modules']:
         atoms[m['name']] = [_import_atom(idx, u) for u in m.get('uses', [])]
@@ -479,7 +483,88 @@ def gen_project(rng, size):
             if c.get('via') == 'imp':
                 c['via'] = 'unq' if imports[c['mod']] is None else 'only'
     free = [{'file': u[1], 'routine': r} for u in units if u[0] == 'free' for r in u[2]]
-    return {'modules': mods, 'free': free}
+    proj = {'modules': mods, 'free': free}
+    if rng.random() < 0.7:
+        add_shadow(rng, proj, fresh)
+    return proj
+
+def add_shadow(rng, proj, fresh):
+    """the same local name imported at module level (from an outer module) and again inside a procedure (from an inner
+    module), with plain and renamed ONLY entries: a called subroutine and/or a derived type with a bound procedure.
+    Fortran resolves the name innermost-first; one sibling procedure keeps using the module-level import."""
+    mods = [m for m in proj['modules'] if m['name'] != 'hdr_mod']
+    boundp = lambda m: {b['proc'] for t in m['types'] for b in t['bindings']}
+    infc = lambda m: {p for it in m['interfaces'] for p in it['procs']}
+    subs = lambda m: [r for r in m['routines'] if r['kind'] == 'sub' and r['name'] not in boundp(m)]
+    shadow = []
+    def existing(r):
+        names = set()
+        for c in r['calls']:
+            names.update(x for x in (c.get('name'), c.get('orig')) if x)
+        for u in r['uses']:
+            for x in (u.get('only') or []):
+                names.update(x if isinstance(x, list) else [x])
+        names.update(tv['type'] for tv in r['tvars'])
+        return names
+    for ui, U in enumerate(mods):
+        later = mods[ui + 1:]
+        if not U['routines'] or len(later) < 2: continue
+        rs = [r for r in U['routines']]
+        r_in = rng.choice(rs)
+        others = [r for r in rs if r is not r_in]
+        r_out = rng.choice(others) if others else None
+        did = False
+        # called subroutine
+        cand = [m for m in later if subs(m)]
+        if len(cand) >= 2 and rng.random() < 0.8:
+            O, I = rng.sample(cand, 2)
+            po, pi = rng.choice(subs(O))['name'], rng.choice(subs(I))['name']
+            al = rng.choice([po, pi, fresh('hlp')])
+            if al in existing(r_in) or {po, pi} & existing(r_in): al = fresh('hlp')
+            if r_out is not None and ({al, po, pi} & existing(r_out)): r_out_p = None
+            else: r_out_p = r_out
+            U['uses'].append({'module': O['name'], 'only': [po if al == po else [al, po]]})
+            r_in['uses'].append({'module': I['name'], 'only': [pi if al == pi else [al, pi]], 'spell': _spell(rng)})
+            c = {'k': 'sub', 'name': al, 'mod': I['name'], 'via': 'only', 'spell': _spell(rng)}
+            if al != pi: c['orig'] = pi
+            r_in['calls'].append(c)
+            if r_out_p is not None and rng.random() < 0.7:
+                c = {'k': 'sub', 'name': al, 'mod': O['name'], 'via': 'modimp', 'spell': _spell(rng)}
+                if al != po: c['orig'] = po
+                r_out_p['calls'].append(c)
+            did = True
+        # derived type with a bound procedure
+        # (renamed type imports are resolved through fall-backs of the item factory that an unqualified USE in the same
+        # procedure derails; keep such procedures out)
+        cand = [m for m in later if any(t['bindings'] for t in m['types'])]
+        if len(cand) >= 2 and rng.random() < 0.8 and all(u.get('only') is not None for u in r_in['uses']):
+            O, I = rng.sample(cand, 2)
+            to = rng.choice([t for t in O['types'] if t['bindings']]); ti = rng.choice([t for t in I['types'] if t['bindings']])
+            al = rng.choice([to['name'], ti['name'], fresh('tya')])
+            if {al, to['name'], ti['name']} & existing(r_in): al = fresh('tya')
+            if al == ti['name'] and any(tv['type'] == ti['name'] for r in rs for tv in r['tvars']): al = fresh('tya')
+            # host-associated use of the module-level type import only for a plain (not renamed) module-level entry
+            r_out_t = None if (r_out is None or al != to['name'] or ({al, to['name'], ti['name']} & existing(r_out))
+                               or any(u.get('only') is None for u in r_out['uses'])) else r_out
+            stmt = {'module': O['name'], 'only': [to['name'] if al == to['name'] else [al, to['name']]]}
+            U['uses'].append(stmt)
+            r_in['uses'].append({'module': I['name'], 'only': [ti['name'] if al == ti['name'] else [al, ti['name']]], 'spell': _spell(rng)})
+            # the procedure also imports the outer type under a third name: with the REGEX frontend (and for an alias equal
+            # to the inner type's own name) ProcedureItem._dependencies looks the declared type name up in the module-level
+            # import map and adds the outer typedef as a dependency; this import makes that dependency a real one
+            r_in['uses'].append({'module': O['name'], 'only': [[fresh('tyo'), to['name']]], 'spell': _spell(rng)})
+            vn = 'w_%s' % al
+            r_in['tvars'].append({'name': vn, 'type': al, 'module': I['name'], 'rtype': ti['name']})
+            r_in['calls'].append({'k': 'tbp', 'var': vn, 'binding': rng.choice(ti['bindings'])['name'], 'spell': _spell(rng)})
+            if r_out_t is not None and rng.random() < 0.7:
+                r_out_t['tvars'].append({'name': vn, 'type': al, 'module': O['name'], 'rtype': to['name'], 'hostimp': stmt})
+                r_out_t['calls'].append({'k': 'tbp', 'var': vn, 'binding': rng.choice(to['bindings'])['name'], 'spell': _spell(rng)})
+            did = True
+        if did:
+            shadow.append('%s#%s' % (U['name'], r_in['name']))
+            break
+    if shadow:
+        proj['shadow'] = shadow
 
 def _all_item_names(proj):
     atoms, flags = truth_atoms(proj)
@@ -560,9 +645,12 @@ def aim_block(rng, case):
         byname.update({'#' + f['routine']['name']: f['routine'] for f in proj['free']})
         for caller, c in rng.sample(pairs, len(pairs)):
             r = byname[caller]
+            if any('rtype' in tv for tv in r['tvars']): continue
             u = next((u for u in r['uses'] if u['module'] == c['mod']), None)
             called = {cc['name'] for cc in r['calls'] if cc.get('mod') == c['mod'] and cc['k'] in ('sub', 'fun')}
-            if u and u['only'] is not None and all(isinstance(x, str) and x in called for x in u['only']):
+            hal = {(x[0] if isinstance(x, list) else x) for m in proj['modules'] if m['name'] == caller.split('#')[0]
+                   for uu in m.get('uses', []) for x in (uu.get('only') or [])}
+            if u and u['only'] is not None and all(isinstance(x, str) and x in called for x in u['only']) and not (called & hal):
                 u['only'] = None
                 for cc in r['calls']:
                     if cc.get('mod') == c['mod'] and cc.get('via') == 'only': cc['via'] = 'unq'
@@ -598,6 +686,8 @@ def gen_seeds(rng, proj, config):
         form = rng.choice(['local', 'local', 'full', 'upper'])
         s = local if form == 'local' else nm if form == 'full' else local.upper()
         seeds.append(s)
+    if proj.get('shadow') and rng.random() < 0.6:
+        seeds.append(rng.choice([proj['shadow'][0], proj['shadow'][0].split('#')[1]]))
     if rng.random() < 0.08: seeds.append('no_such_routine')
     return seeds
 
@@ -625,14 +715,20 @@ def normalise_case(case):
     fp_full = case['frontend'] == 'fp' and case['full_parse']
     infc = {(m['name'], p) for m in proj['modules'] for it in m['interfaces'] for p in it['procs']}
     gd = list(config['default'].get('disable', []) or [])
+    modal = {}
+    for m in proj['modules']:
+        modal[m['name']] = {(x[0] if isinstance(x, list) else x) for u in m.get('uses', []) for x in (u.get('only') or [])}
     def fix_routine(r, name):
         conf = item_conf(config, name)
+        aliases = modal.get(name.split('#')[0], set())
         if not fp_full:
             r['calls'] = [c for c in r['calls'] if not (c['k'] == 'fun' and c.get('via') == 'host')]
         idis, iblk = list(conf.get('disable', []) or []), list(conf.get('block', []) or [])
         for c in r['calls']:
             if c.get('via') == 'unq':
-                if not unq_in_class(c['mod'], c['name'], gd, idis, iblk) or (c['mod'], c['name']) in infc or (c['k'] == 'fun' and not fp_full):
+                if not unq_in_class(c['mod'], c['name'], gd, idis, iblk) or (c['mod'], c['name']) in infc \
+                        or (c['k'] == 'fun' and not (fp_full and config['default'].get('enable_imports'))) \
+                        or c['name'] in aliases:
                     mvars = next((m.get('vars', []) for m in proj['modules'] if m['name'] == c['mod']), [])
                     for u in r['uses']:
                         if u['module'] == c['mod'] and u['only'] is None:
@@ -675,11 +771,19 @@ def _frontend(name):
     from loki.frontend import FP, REGEX
     return FP if name == 'fp' else REGEX
 
-def build(case, root, strict_override=None):
+def build(case, root, strict_override=None, for_extraction=False):
     from loki.batch import Scheduler
     cfg = copy.deepcopy(case['config'])
     if strict_override is not None:
         cfg['default']['strict'] = strict_override
+    if for_extraction:
+        # the graph is built inside __init__ BEFORE Scheduler._enrich runs; enrichment rewrites the types of imported
+        # symbols (a renamed import can lose its use_name), so the model input is read from a second instance that
+        # stops where the graph was built.  The observed graph always comes from the unmodified class.
+        class _GraphOnly(Scheduler):
+            def _enrich(self):
+                return None
+        Scheduler = _GraphOnly
     return Scheduler(paths=[root], config=cfg, seed_routines=list(case['seeds']),
                      frontend=_frontend(case['frontend']), full_parse=case['full_parse'])
 
@@ -886,8 +990,7 @@ class C21(Property):
                 out = {'error': type(e).__name__, 'msg': str(e)[:200]}
                 sched = None
             try:
-                if sched is None:
-                    sched = build(case, root, strict_override=False)
+                sched = build(case, root, strict_override=(False if sched is None else None), for_extraction=True)
                 out['model'] = extract(sched, case)
             except Exception as e:     # the shadow run failed as well: no model input
                 out['model_error'] = '%s: %s' % (type(e).__name__, str(e)[:200])
